@@ -113,8 +113,10 @@ def reactionHolds (kind : String) (lr : Float) (st : St Float) (status : String)
       else if !(nonneg (st'.mols.map (·.ke)) st'.buffer) then (false, "negative")
       else if !(conserved (pop.map (·.obj)) (st.mols.map (·.ke)) st.buffer
                   (pop'.map (·.obj)) (st'.mols.map (·.ke)) st'.buffer) then (false, "energy")
-      else if uniqueTags pop && !(pairsPreserved pop st.mols (rPop.map (·.tag)) pop' st'.mols) then (false, "order")
-      else if (kind == "decomp" || kind == "synth") && !(productsPaired (pPop.map (·.tag)) pop' st'.mols) then (false, "order")
+      -- the order checks identify individuals by tag: only meaningful when population and products are pairwise distinct
+      else if uniqueTags (pop ++ pPop) && !(pairsPreserved pop st.mols (rPop.map (·.tag)) pop' st'.mols) then (false, "order")
+      else if uniqueTags (pop ++ pPop) && (kind == "decomp" || kind == "synth") &&
+          !(productsPaired (pPop.map (·.tag)) pop' st'.mols) then (false, "order")
       else (true, "-")
     | [] => (false, "frame")
   | _ => (true, "-")
